@@ -716,6 +716,18 @@ def _boundaries_ok(b: T, kind: str, thr: T) -> Tuple[bool, str]:
     return True, "concat([0], where(step > thr)+1, [count])"
 
 
+def _sliced(t: T, sl: T) -> Optional[T]:
+    """the sequence b with t == b[sl], also where the subscript was
+    distributed over the alternatives of a conditional value"""
+    if t.op == "sub" and t.args[1] is sl:
+        return t.args[0]
+    if t.op == "ite":
+        a, b = _sliced(t.args[1], sl), _sliced(t.args[2], sl)
+        if a is not None and b is not None:
+            return tm.ite(t.args[0], a, b)
+    return None
+
+
 def _splits(ctx, prog):
     specs = [(f"{PATH}.split_distance_gaps", "distance", False),
              (f"{TRAJ}.split_time_gaps", "time", True),
@@ -749,12 +761,13 @@ def _splits(ctx, prog):
             sb = Interp(prog).subscript
             lo, hi = sb(b, i), sb(b, T("binop", "Add", i, const(1)))
         elif is_call_to(itr, "builtins.zip") and len(itr.args[1]) == 2 \
-                and itr.args[1][0].op == "sub" and itr.args[1][0].args[1] \
-                is T("slice", tm.NONE, const(-1), tm.NONE) and \
-                itr.args[1][1] is Interp(prog).subscript(
-                    itr.args[1][0].args[0], S1) and not comp.args[3]:
+                and _sliced(itr.args[1][0], T("slice", tm.NONE, const(-1),
+                                              tm.NONE)) is not None and \
+                _sliced(itr.args[1][0], T("slice", tm.NONE, const(-1),
+                                          tm.NONE)) is \
+                _sliced(itr.args[1][1], S1) and not comp.args[3]:
             # for start, end in zip(b[:-1], b[1:]): ... [start:end]
-            b = itr.args[1][0].args[0]
+            b = _sliced(itr.args[1][1], S1)
             lo = T("elem", itr.args[1][0], lid)
             hi = T("elem", itr.args[1][1], lid)
         elif is_call_to(itr, "builtins.zip") and len(itr.args[1]) == 2 \
